@@ -102,6 +102,7 @@ type part struct {
 	Arg  string `json:"arg"`  // what the caller wrote (trimmed)
 	Host string `json:"host"` // the host the caller named
 	Port int    `json:"port"` // -1 none
+	URI  bool   `json:"uri,omitempty"`
 }
 
 type scenario struct {
@@ -322,6 +323,11 @@ func genScenario(rng *mrand.Rand, i int) *scenario {
 			pt.Arg = pt.Host
 			if pt.Port >= 0 {
 				pt.Arg += ":" + strconv.Itoa(pt.Port)
+			}
+			// the URI form of the package's own ExampleDial_uri: same host, same port, same lookups
+			if rng.IntN(7) == 0 {
+				pt.Arg = "https://" + pt.Arg + []string{"", "/", "/some/path?q=1"}[rng.IntN(3)]
+				pt.URI = true
 			}
 		}
 		sc.Parts = append(sc.Parts, pt)
@@ -834,7 +840,7 @@ func TestCheck(t *testing.T) {
 	r := mon.Start(t, "C17", "exploration")
 	defer r.Finish()
 	r.SetRule("seed-determined DNS universes (origins with 0..4 A/AAAA, optionally behind a CNAME; HTTPS RRSets at the RFC 9460 query name: none, 1..3 service records with distinct or tied priorities, '.'/named targets with own addresses (or none, or behind a CNAME), ports, hints, ech on all/some/no records and every list unique, alias chains of 1..2 hops ending in service records/nothing, alias to '.') " +
-		"x address forms host, host:443, host:8443, host:80, IP literals, comma lists of 1..3 parts (same host twice included) x network tcp/tcp4/tcp6 x RequireECH x PublicName {'', public.example} x caller tls.Config {nil, zero, ECH list, ServerName, both, empty non-nil list; sentinel NextProtos/MinVersion/MaxVersion/CipherSuites with spare capacity} " +
+		"x address forms host, host:443, host:8443, host:80, https://host[:port][/path] URIs, IP literals, comma lists of 1..3 parts (same host twice included) x network tcp/tcp4/tcp6 x RequireECH x PublicName {'', public.example} x caller tls.Config {nil, zero, ECH list, ServerName, both, empty non-nil list; sentinel NextProtos/MinVersion/MaxVersion/CipherSuites with spare capacity} " +
 		"x per-(address, attempt) scripted outcomes {ok, error, ECH rejection with unique retry configs, rejection without} under 5 outcome profiles. " +
 		"distinct = distinct (parts, forms, network, RequireECH, PublicName, caller config, zone shape, outcome sequence class, result) classes that reached Dial")
 	r.Assume("internal/dohfake serves the universe; Zone.Lookup is what the zone says",
@@ -1301,6 +1307,9 @@ func runScenario(r *mon.Run, i int, sc *scenario, url string) {
 	forms := ""
 	for _, pt := range sc.Parts {
 		forms += fmt.Sprintf("p%d", pt.Port)
+		if pt.URI {
+			forms += "u"
+		}
 	}
 	if len(seqClass) > 8 {
 		seqClass = seqClass[:8]
